@@ -157,8 +157,18 @@ def configs(tier):
     return cfgs
 
 
-def _case(t, dims, form, e, group):
+def _case(t, dims, form, e, group, dest=None):
     ct = CTYPE[t]
+    if dest == "map":
+        # the same statement written through a TensorMap over the destination's storage (maps store with the unaligned instructions)
+        tt = f"Tensor<{ct},{','.join(map(str, dims))}>"
+        mt = f"TensorMap<{ct},{','.join(map(str, dims))}>"
+        body = (f"struct K {{ using T = {ct}; using TT = Fastor::{tt}; using RT = Fastor::{tt}; "
+                f"static FX_NOINLINE void call(const TT& a, const TT& b, T c, RT& r) {{ using namespace Fastor; {mt} m(r.data()); c02::assign(c02::FT<{FORMS[form]}>(), m, {e.t}); }} "
+                f"static {ct} ref(T x, T y, T c, bool& s) {{ using O = c02::ops<T>; return ({ct})({e.s}); }} }}; "
+                f"c02::run<K>(fx, {FORMS[form]}, {EXACT});")
+        shape = "x".join(map(str, dims))
+        return Case(f"C02/expr[{t}|shape={shape}|form={form}|dest=map|tree={e.t}]", body, route=f"map.{form}", cost=0.25)
     tt = f"Tensor<{ct},{','.join(map(str, dims))}>"
     rt = f"Tensor<bool,{','.join(map(str, dims))}>" if e.boolean else tt
     rs = "bool" if e.boolean else ct
@@ -264,6 +274,11 @@ def cases(tier, cfg):
                                     f"static FX_NOINLINE void call(const TT& a, const TT& b, T c, RT& r) {{ {U} u = ({U}){lit}; fx::escape(&u); r {op} u; }} "
                                     f"static T ref(T x, T y, T c, bool& s) {{ return (T){lit}; }} }}; c02::run<K>(fx, {FORMS[f]}, {cls});")
                             out.append(Case(f"C02/scalar_assign[{t}|shape={n}|form={f}|scalar={uname}]", body, route=f"scalar.{f}.{uname}", cost=0.15))
+            # destination = a TensorMap over the result's storage
+            for n in sorted({W + 1, 2 * W + 3}):
+                for me in (bi("+", A, B), bi("*", A, C), un("neg", A), bi("-", C, A)):
+                    for f in ("assign", "add"):
+                        out.append(_case(t, (n,), f, me, "map", dest="map"))
             e = bi("*", bi("+", A, B), C)
             for dims in ((2, W + 1), (W + 1, 2), (3, 1, W), (2, 2, W + 1)):
                 for f in ("assign", "add"):
